@@ -837,6 +837,24 @@ def kwsites_check(fns):
                 elif f.name.startswith('text_macro_') and lit != 'directive':
                     failures.append(fail(f.name, 'C13.kw.%s-lexes-the-macro-name-under-the-directive-set' % f.name,
                                          'the macro name is lexed under the keyword set "%s"' % lit, props, f))
+    # the character classes every identifier lexer and the word-boundary test of keyword(t) are built from
+    # (IEEE 1800-2017 5.6: simple_identifier ::= [a-zA-Z_] { [a-zA-Z0-9_$] })
+    import string
+    want = {'AZ_': set(string.ascii_letters + '_'), 'AZ09_': set(string.ascii_letters + string.digits + '_'),
+            'AZ09_DOLLAR': set(string.ascii_letters + string.digits + '_$')}
+    try:
+        raw_id = open(os.path.join(REPO, 'sv-parser-parser/src/general/identifiers.rs'), encoding='utf-8').read()
+    except IOError:
+        raw_id = ''
+    for cname, chars in sorted(want.items()):
+        checked += 1
+        m_ = re.search(r'const\s+%s\s*:\s*&str\s*=\s*"([^"]*)"\s*;' % cname, raw_id)
+        if m_ is None:
+            undecided.append('character class %s not found in general/identifiers.rs (anchor lost)' % cname)
+        elif set(m_.group(1)) != chars:
+            diff = sorted(chars ^ set(m_.group(1)))
+            failures.append(fail('identifiers', 'C13.kw.character-class-%s' % cname, 'the character class %s differs from IEEE 5.6 in %s' % (cname, diff[:6]),
+                                 ['C13', 'C05', 'C11', 'C04'], Dummy('sv-parser-parser/src/general/identifiers.rs', raw_id[:m_.start()].count('\n') + 1)))
     return dict(failures=failures, undecided=undecided, checked=checked)
 
 
